@@ -205,35 +205,30 @@ UNITS["basis/facet-init"] = facet_init
 
 
 def order(ctx):
+    """default / explicit integration order and explicit quadrature, decided on what the basis actually holds (X, W), not on how it obtained it"""
     import skfem as fem
     import skfem.assembly.basis.abstract_basis as AB
+    from skfem.quadrature import get_quadrature
     fn = ctx.function(AB.AbstractBasis.__init__)
-    rec = []
-    saved = AB.get_quadrature
-    AB.get_quadrature = lambda refdom, n: (rec.append((refdom, n)), saved(refdom, n))[1]
-    try:
-        for mk, e in ((fem.MeshTri, fem.ElementTriP2()), (fem.MeshQuad, fem.ElementQuad2()), (fem.MeshTet, fem.ElementTetP1()), (fem.MeshLine, fem.ElementLineP2()),
-                      (fem.MeshHex, fem.ElementHex1()), (fem.MeshTri, fem.ElementTriMini())):
-            m = mk()
-            del rec[:]
-            fem.CellBasis(m, e)
-            ctx.fact("order/default/%s" % type(e).__name__, fn, len(rec) == 1 and rec[0][1] == 2 * e.maxdeg and rec[0][0] is m.refdom,
-                     "default rule requested with order %s, expected 2*maxdeg = %d" % (rec, 2 * e.maxdeg), clause="default integration order == 2*maxdeg on the cell's reference domain",
-                     backend="path-execution", replay=dict(kind="integration"))
-            del rec[:]
-            fem.CellBasis(m, e, intorder=3)
-            ctx.fact("order/explicit/%s" % type(e).__name__, fn, len(rec) == 1 and rec[0][1] == 3, "explicit intorder not honoured: %s" % rec, backend="path-execution")
-            del rec[:]
-            X, W = saved(m.refdom, 5)
-            b = fem.CellBasis(m, e, quadrature=(X, W))
-            ctx.fact("order/quadrature/%s" % type(e).__name__, fn, not rec and b.X is X and b.W is W, "explicit quadrature not used as given", backend="path-execution")
-            if hasattr(m, "brefdom") and m.brefdom is not None and m.dim() > 1:
-                del rec[:]
-                fem.FacetBasis(m, e)
-                ctx.fact("order/facet-default/%s" % type(e).__name__, fn, len(rec) == 1 and rec[0][1] == 2 * e.maxdeg and rec[0][0] is m.brefdom, "facet default order %s" % rec,
-                         backend="path-execution")
-    finally:
-        AB.get_quadrature = saved
+    same = lambda b, rule: np.array_equal(b.X, rule[0]) and np.array_equal(b.W, rule[1])
+    for mk, e in ((fem.MeshTri, fem.ElementTriP2()), (fem.MeshQuad, fem.ElementQuad2()), (fem.MeshTet, fem.ElementTetP1()), (fem.MeshLine, fem.ElementLineP2()),
+                  (fem.MeshHex, fem.ElementHex1()), (fem.MeshTri, fem.ElementTriMini()), (fem.MeshTri, fem.ElementTriP4()), (fem.MeshTet, fem.ElementTetP2())):
+        m = mk()
+        n = type(e).__name__
+        b = fem.CellBasis(m, e)
+        ctx.fact("order/default/%s" % n, fn, same(b, get_quadrature(m.refdom, 2 * e.maxdeg)) and not same(b, get_quadrature(m.refdom, max(0, 2 * e.maxdeg - 2))),
+                 "the default rule of the basis is not the rule of order 2*maxdeg = %d of the cell's reference domain" % (2 * e.maxdeg),
+                 clause="default (X, W) == get_quadrature(mesh.refdom, 2*maxdeg)", backend="path-execution", replay=dict(kind="integration"))
+        b = fem.CellBasis(m, e, intorder=3)
+        ctx.fact("order/explicit/%s" % n, fn, same(b, get_quadrature(m.refdom, 3)), "explicit intorder=3 not honoured", clause="intorder=n  =>  (X, W) == get_quadrature(mesh.refdom, n)",
+                 backend="path-execution")
+        X, W = get_quadrature(m.refdom, 5)
+        b = fem.CellBasis(m, e, quadrature=(X, W), intorder=1)
+        ctx.fact("order/quadrature/%s" % n, fn, b.X is X and b.W is W, "explicit quadrature not used as given (it has precedence over intorder)", backend="path-execution")
+        if getattr(m, "brefdom", None) is not None and m.dim() > 1:
+            fb = fem.FacetBasis(m, e)
+            ctx.fact("order/facet-default/%s" % n, fn, same(fb, get_quadrature(m.brefdom, 2 * e.maxdeg)), "facet default rule is not order 2*maxdeg on the facet's reference domain",
+                     backend="path-execution")
 
 
 UNITS["order"] = order
